@@ -8,7 +8,7 @@ LEVEL = "model_checking"
 def run(ctx, res):
     ctx.build()
     res.rule = ("F: Groups!Numbering is a pure function; TLC enumerates EVERY sequence of group declarations up to the length bound over the vocabulary "
-                "{unnamed, named a, named b, numbered 2, numbered 5, unnamed under (?n:), named a under (?n:)} x {default, MaintainCaptureOrder} and predicts numbers and "
+                "{unnamed, named a, named b, numbered 2, numbered 3, numbered 5, unnamed under (?n:), named a under (?n:)} x {default, MaintainCaptureOrder} and predicts numbers and "
                 "names; the replayer builds the pattern (i-th declaration matches the i-th letter; RE2 and ECMAScript spellings where they apply) and compares "
                 "GetGroupNumbers, GetGroupNames, both lookups, Match.Groups() order/names/captures, GroupByName/Number, back-references by number and by name, "
                 "$n / ${n} / ${name} in Replace. evaluations = individual comparisons; non-trivial = declaration sequences mixing at least two kinds")
@@ -43,7 +43,7 @@ def run(ctx, res):
     res.exhaustive = True
     for s in d["samples"]:
         res.add_sample(s)
-    res.assumptions += ["TLC and the CommunityModules Json/IOUtils", "declaration sequences up to length %d over a 7-element vocabulary" % maxlen]
+    res.assumptions += ["TLC and the CommunityModules Json/IOUtils", "declaration sequences up to length %d over an 8-element vocabulary (the explicit numbers 2 and 3 are adjacent, 5 leaves a gap)" % maxlen]
 
 
 def replay(ctx, res, v):
